@@ -14,7 +14,9 @@
     counters differ, 35 constants (addresses / event ids) differ, 36 ill-formed call tree;
     41 failed tx changed something, 42 state of a non-caller changed, 43 effect differs from the
     passed arguments, 44 supply changed / balances do not add up to it, 45 coins burned by a slash
-    did not arrive at the fee collector. *)
+    did not arrive at the fee collector, 46 a step or the block boundary after it panicked outside any
+    recovery (chain halt), 47 state outside the observed universe appeared (another denomination, an
+    unknown validator, a failing reward query). *)
 From Teleport Require Import Base.Bytes Base.Outcome Model.Adapter Model.AdapterEvm Model.AdapterNative.
 Local Open Scope Z_scope.
 
@@ -151,7 +153,9 @@ Record astep := {
   a_vres : list (bytes * option nat);    (* oracle: validator string -> index *)
   a_pre : ostate; a_post : ostate;
   a_class : nat;                         (* 0 ok, 1 EVM failed, 2 hook failed, 3 tx rejected, 4 panic recovered *)
-  a_logs : list log
+  a_logs : list log;
+  a_halt : bool;                         (* observed: the step / the block boundary after it panicked unrecovered *)
+  a_other_ok : bool                      (* observed: nothing outside the projected universe in pre and post *)
 }.
 
 Record acase := { ac_env : envinfo; ac_steps : list astep; ac_final : ostate }.
@@ -320,6 +324,7 @@ Definition supply_ok (pre post : nstate) : bool :=
   (n_supply post =? n_supply pre) && (total_bal post =? n_supply post) && (total_bal pre =? n_supply pre).
 
 Definition mon_astep (e : envinfo) (st : astep) : list nat :=
+  (if a_halt st then [46%nat] else []) ++ (if a_other_ok st then [] else [47%nat]) ++
   (if supply_ok (o_n (a_pre st)) (o_n (a_post st)) then [] else [44%nat]) ++
   match a_kind st with
   | 0%nat =>
